@@ -139,6 +139,46 @@ def javaHasCompareTo (c : RecordCfg) : Bool := c.ord && c.nFields != 0
 def javaImplementsComparable (c : RecordCfg) : Bool := c.ord && c.nFields != 0
 def javaHasToString (c : RecordCfg) : Bool := c.javaStringSer
 
+/-! ## which operations a record derives (`parser.py: visitRecord`, `visitImportDef`; `generate.default_deriving`) -/
+
+/-- a record declaration as far as `deriving` goes: its name and the explicit `deriving(eq)` / `deriving(ord)` -/
+structure RecDecl where
+  name : String
+  eq : Bool
+  ord : Bool
+deriving Repr, BEq, DecidableEq
+
+/-- one IDL file: the files it `@import`s and its own record declarations -/
+inductive IdlFile where
+  | mk (imports : List IdlFile) (records : List RecDecl)
+
+/-- `visitRecord`: `deriving = explicit | self.default_deriving` -/
+def RecDecl.withDefault (dEq dOrd : Bool) (r : RecDecl) : RecDecl :=
+  { r with eq := r.eq || dEq, ord := r.ord || dOrd }
+
+mutual
+/-- `Parser(default_deriving, idl).parse()`: the type definitions of the imported files — each parsed by a nested `Parser`
+that `visitImportDef` constructs with the *same* `default_deriving` — followed by the file's own records -/
+def IdlFile.parse (dEq dOrd : Bool) : IdlFile → List RecDecl
+  | .mk imports records => IdlFile.parseAll dEq dOrd imports ++ records.map (RecDecl.withDefault dEq dOrd)
+def IdlFile.parseAll (dEq dOrd : Bool) : List IdlFile → List RecDecl
+  | [] => []
+  | f :: fs => IdlFile.parse dEq dOrd f ++ IdlFile.parseAll dEq dOrd fs
+end
+
+mutual
+/-- the declarations as written, in the same order, whatever file they stand in -/
+def IdlFile.decls : IdlFile → List RecDecl
+  | .mk imports records => IdlFile.declsAll imports ++ records
+def IdlFile.declsAll : List IdlFile → List RecDecl
+  | [] => []
+  | f :: fs => IdlFile.decls f ++ IdlFile.declsAll fs
+end
+
+/-- the configuration of a record's emission decisions under `generate.default_deriving` -/
+def RecordCfg.withDefault (c : RecordCfg) (dEq dOrd : Bool) : RecordCfg :=
+  { c with eq := c.eq || dEq, ord := c.ord || dOrd }
+
 /-! ## specification-level definitions (independent of the emitted bodies) -/
 
 /-- all fields equal -/
